@@ -5,7 +5,7 @@ Gemini URLs according to the protocol specification.
 """
 
 from typing import NamedTuple
-from urllib.parse import urlparse, urlunparse
+from urllib.parse import unquote, urlparse, urlunparse
 
 from ..protocol.constants import DEFAULT_PORT, MAX_REQUEST_SIZE
 
@@ -109,6 +109,40 @@ def parse_url(url: str) -> ParsedURL:
         fragment=parsed.fragment or "",
         normalized=normalized,
     )
+
+
+def canonical_path_segments(path: str, clamp: bool = True) -> list[str]:
+    """Bring a URL path to the canonical list of segments it denotes.
+
+    Percent-escapes are decoded, empty and "." segments are dropped and ".."
+    segments are resolved lexically. Everything that maps a request path to a
+    resource (file handlers, path-based access rules) uses this one function,
+    so that they cannot disagree about what a path means.
+
+    Args:
+        path: The path component of a URL (e.g. '/a/./b/../c%20d').
+        clamp: What to do with a ".." that would climb above the root: ignore
+            it, as RFC 3986 remove_dot_segments does (True, default), or
+            refuse the path (False).
+
+    Returns:
+        The canonical segments (e.g. ['a', 'c d']).
+
+    Raises:
+        ValueError: If clamp is False and the path climbs above the root.
+    """
+    segments: list[str] = []
+    for segment in unquote(path).split("/"):
+        if segment in ("", "."):
+            continue
+        if segment == "..":
+            if segments:
+                segments.pop()
+            elif not clamp:
+                raise ValueError(f"Path climbs above the root: {path}")
+            continue
+        segments.append(segment)
+    return segments
 
 
 def validate_url(url: str) -> None:
